@@ -146,16 +146,33 @@ class Ctx:
         lock = open(os.path.join(WORK, "coq.lock"), "w")
         fcntl.flock(lock, fcntl.LOCK_EX)
         try:
-            if not os.path.exists(os.path.join(COQ, "Makefile")):
-                rc, out, _ = sh("coq_makefile -f _CoqProject -o Makefile", cwd=COQ)
+            # second tie: regenerate the translated definitions from the current source (files are rewritten only
+            # when their text changes, so make stays incremental)
+            try:
+                from . import py2coq
+                self.translator_report = py2coq.regenerate(SRC, os.path.join(COQ, "Gen"))
+            except Exception as e:  # noqa
+                self.translator_report = {"*": {"*": "translator crashed: %s" % e}}
+            proj = os.path.join(COQ, "_CoqProject")
+            listed = open(proj).read() if os.path.exists(proj) else ""
+            on_disk = [os.path.join(d, f) for d in ("Gen", "Proofs") for f in sorted(os.listdir(os.path.join(COQ, d))) if f.endswith(".v")]
+            if not os.path.exists(os.path.join(COQ, "Makefile")) or any(f not in listed for f in on_disk):
+                rc, out, _ = sh("./gen_project.sh", cwd=COQ)
                 if rc != 0:
                     return False, out
             rc, out, dt = sh("timeout 1500 make -k -j%d" % (os.cpu_count() or 4), timeout=1600, cwd=COQ)
             self.notes["coq_make_s"] = round(dt, 1)
             # only this property's own statement file (and hence everything it depends on) must have built
-            targets = ["Properties/%s.vo" % self.prop] + ["%s.vo" % d for d in getattr(self, "coq_deps", [])]
+            targets = ["Properties/%s.vo" % f for f in self.statement_files()] + ["%s.vo" % d for d in getattr(self, "coq_deps", [])]
             rcq, _, _ = sh("make -q " + " ".join(targets), timeout=120, cwd=COQ)
             ok = rcq == 0 and all(os.path.exists(os.path.join(COQ, t)) for t in targets)
+            self.stale_targets = []
+            if not ok:
+                self.make_log = out
+                for t in targets:
+                    rct, _, _ = sh("make -q " + t, timeout=120, cwd=COQ)
+                    if rct != 0 or not os.path.exists(os.path.join(COQ, t)):
+                        self.stale_targets.append(t)
             if rc != 0:
                 self.notes["coq_make_other_failures"] = out[-600:]
             return ok, out
@@ -181,65 +198,97 @@ class Ctx:
                     bad.append("%s: %s" % (os.path.relpath(p, COQ), m.group(0)))
         return bad
 
-    def proof_layer(self, allowed_axioms=(), coq_deps=()):
-        """coq_deps: Corr/... files (without extension) the generated cases import; they must be up to date too."""
+    def proof_layer(self, allowed_axioms=(), coq_deps=(), gen=()):
+        """coq_deps: Corr/... files (without extension) the generated cases import; they must be up to date too.
+        gen: translated modules (py2coq.TARGETS keys) whose equivalence theorems this property relies on."""
         allowed = set(allowed_axioms)
-        self.coq_deps = list(coq_deps)
+        self.gen = list(gen)
+        equiv = {"unique_values": "Proofs/GenEquivUV", "data_preparation": "Proofs/GenEquivDP"}
+        self.coq_deps = list(coq_deps) + [equiv[g] for g in self.gen]
         t_pl = time.time()
         try:
             return self._proof_layer(allowed)
         finally:
             self.notes["proof_layer_wall_s"] = round(time.time() - t_pl, 1)
 
+    def statement_files(self):
+        """Properties/<ID>.v plus optional companions Properties/<ID><suffix>.v
+        (gen: theorems about the code as translated by py2coq; mx: mathcomp matrix statements)."""
+        d = os.path.join(COQ, "Properties")
+        return sorted(f[:-2] for f in os.listdir(d) if re.fullmatch(re.escape(self.prop) + r"[a-z]*\.v", f))
+
     def _proof_layer(self, allowed):
         ok, out = self.coq_build()
-        propfile = os.path.join(COQ, "Properties", self.prop + ".v")
-        names = property_theorems(propfile)
-        if not ok:
-            self.obligations = [(n, False, []) for n in names]
-            self.violation("proof", "the Coq development does not build",
-                           {"theorem": "build", "log_tail": out[-3000:]}, no_input=True)
-            return False
+        files = self.statement_files()
+        stale = set(getattr(self, "stale_targets", []))
+        # translator tie: every function of the modules this property relies on must have been translated, and the
+        # theorems "generated definition = model" must still compile against the regenerated text
+        rep = getattr(self, "translator_report", {})
+        self.notes["translator"] = {m: rep.get(m, {"*": "not run"}) for m in self.gen}
+        for m in self.gen:
+            bad_fns = {f: st for f, st in rep.get(m, {"*": "not run"}).items() if st != "ok"}
+            if bad_fns:
+                self.tie_mismatch("translator:py2coq:" + m, "the source of %s is outside the translated subset: %s" % (m, bad_fns),
+                                  {"functions": bad_fns})
+        stale_equiv = sorted(t for t in stale if "GenEquiv" in t)
+        if stale_equiv:
+            self.tie_mismatch("generated-code-equivalence:" + ",".join(stale_equiv),
+                              "the theorems 'translated source = model' (%s) no longer check against the code as it is now" % ", ".join(stale_equiv),
+                              {"theorem_files": stale_equiv, "log_tail": gen_equiv_errors(out)})
+        other_stale = sorted(t for t in stale if "GenEquiv" not in t and t != "Properties/%sgen.vo" % self.prop)
+        if other_stale or (not ok and not stale):
+            self.violation("proof", "the Coq development does not build (%s)" % ", ".join(other_stale),
+                           {"theorem": "build", "stale": other_stale, "log_tail": out[-3000:]}, no_input=True)
         bad = self.audit()
         if bad:
             self.violation("proof", "audit grep found escape hatches: %s" % bad[:5],
                            {"theorem": "audit", "hits": bad}, no_input=True)
-        # Print Assumptions (re-run coqc on the property file; prints are on stdout)
-        rc, out, _ = sh("timeout 300 coqc -Q . Ticc -w none Properties/%s.v -o %s" %
-                        (self.prop, os.path.join(self.work, self.prop + ".vo")), timeout=320, cwd=COQ)
-        if rc != 0:
-            self.obligations = [(n, False, []) for n in names]
-            self.violation("proof", "Properties/%s.v does not compile" % self.prop,
-                           {"theorem": "Properties/%s.v" % self.prop, "log_tail": out[-3000:]}, no_input=True)
-            return False
-        blocks = parse_assumptions(out)
-        if len(blocks) != len(names):
-            self.violation("proof", "Print Assumptions count %d != theorem count %d" % (len(blocks), len(names)),
-                           {"theorem": "Print Assumptions", "out": out[-2000:]}, no_input=True)
-            return False
-        if self.tier == "thorough":
-            # independent re-check of the compiled statement file and everything it depends on
-            rc2, out2, dt2 = sh("timeout 1500 coqchk -silent -o -Q . Ticc Ticc.Properties.%s" % self.prop, timeout=1600, cwd=COQ)
-            self.notes["coqchk_s"] = round(dt2, 1)
-            m2 = re.search(r"\* Axioms:(.*?)\* Constants/Inductives relying on type-in-type", out2, re.S)
-            chk_ax = [l.strip() for l in (m2.group(1).splitlines() if m2 else []) if l.strip() and l.strip() != "<none>"]
-            declared = [a for a in chk_ax if not (a.startswith("Coq.Floats.PrimFloat.") or a.startswith("Coq.Numbers.Cyclic.Int63."))]
-            self.notes["coqchk_axioms_beyond_primitives"] = declared
-            ok_names = {"Coq.Logic.FunctionalExtensionality.functional_extensionality_dep", "Coq.Reals.ClassicalDedekindReals.sig_not_dec",
-                        "Coq.Reals.ClassicalDedekindReals.sig_forall_dec", "Coq.Logic.Classical_Prop.classic"}
-            if rc2 != 0 or "type-in-type: <none>" not in out2 or "unsafe (co)fixpoints: <none>" not in out2 or "positivity is assumed: <none>" not in out2 \
-                    or any(a not in ok_names for a in declared):
-                self.violation("proof", "coqchk does not accept Properties/%s.vo cleanly (rc=%s, axioms %s)" % (self.prop, rc2, declared),
-                               {"theorem": "coqchk:Properties/%s" % self.prop, "log_tail": out2[-2000:]}, no_input=True)
-        good = True
-        for n, axs in zip(names, blocks):
-            ax_ok = all((a in allowed) or is_primitive(a) for a in axs)
-            self.obligations.append((n, ax_ok, axs))
-            if not ax_ok:
+        good = not bad and not stale and ok
+        for fbase in files:
+            names = property_theorems(os.path.join(COQ, "Properties", fbase + ".v"))
+            if "Properties/%s.vo" % fbase in stale or (not ok and not stale):
+                self.obligations += [(n, False, []) for n in names]
                 good = False
-                self.violation("proof", "theorem %s depends on axioms outside the allow-list: %s" % (n, axs),
-                               {"theorem": n, "axioms": axs}, no_input=True)
-        return good and not bad
+                continue
+            # Print Assumptions (re-run coqc on the statement file; prints are on stdout)
+            rc, o1, _ = sh("timeout 300 coqc -Q . Ticc -w none Properties/%s.v -o %s" %
+                           (fbase, os.path.join(self.work, fbase + ".vo")), timeout=320, cwd=COQ)
+            if rc != 0:
+                self.obligations += [(n, False, []) for n in names]
+                self.violation("proof", "Properties/%s.v does not compile" % fbase,
+                               {"theorem": "Properties/%s.v" % fbase, "log_tail": o1[-3000:]}, no_input=True)
+                good = False
+                continue
+            blocks = parse_assumptions(o1)
+            if len(blocks) != len(names):
+                self.obligations += [(n, False, []) for n in names]
+                self.violation("proof", "Print Assumptions count %d != theorem count %d in %s" % (len(blocks), len(names), fbase),
+                               {"theorem": "Print Assumptions", "out": o1[-2000:]}, no_input=True)
+                good = False
+                continue
+            if self.tier == "thorough":
+                # independent re-check of the compiled statement file and everything it depends on
+                rc2, out2, dt2 = sh("timeout 1500 coqchk -silent -o -Q . Ticc Ticc.Properties.%s" % fbase, timeout=1600, cwd=COQ)
+                self.notes["coqchk_s"] = round(self.notes.get("coqchk_s", 0) + dt2, 1)
+                m2 = re.search(r"\* Axioms:(.*?)\* Constants/Inductives relying on type-in-type", out2, re.S)
+                chk_ax = [l.strip() for l in (m2.group(1).splitlines() if m2 else []) if l.strip() and l.strip() != "<none>"]
+                declared = [a for a in chk_ax if not (a.startswith("Coq.Floats.PrimFloat.") or a.startswith("Coq.Numbers.Cyclic.Int63."))]
+                self.notes.setdefault("coqchk_axioms_beyond_primitives", [])
+                self.notes["coqchk_axioms_beyond_primitives"] = sorted(set(self.notes["coqchk_axioms_beyond_primitives"]) | set(declared))
+                ok_names = {"Coq.Logic.FunctionalExtensionality.functional_extensionality_dep", "Coq.Reals.ClassicalDedekindReals.sig_not_dec",
+                            "Coq.Reals.ClassicalDedekindReals.sig_forall_dec", "Coq.Logic.Classical_Prop.classic"}
+                if rc2 != 0 or "type-in-type: <none>" not in out2 or "unsafe (co)fixpoints: <none>" not in out2 or "positivity is assumed: <none>" not in out2 \
+                        or any(a not in ok_names for a in declared):
+                    self.violation("proof", "coqchk does not accept Properties/%s.vo cleanly (rc=%s, axioms %s)" % (fbase, rc2, declared),
+                                   {"theorem": "coqchk:Properties/%s" % fbase, "log_tail": out2[-2000:]}, no_input=True)
+            for n, axs in zip(names, blocks):
+                ax_ok = all((a in allowed) or is_primitive(a) for a in axs)
+                self.obligations.append((n, ax_ok, axs))
+                if not ax_ok:
+                    good = False
+                    self.violation("proof", "theorem %s depends on axioms outside the allow-list: %s" % (n, axs),
+                                   {"theorem": n, "axioms": axs}, no_input=True)
+        return good
 
     # ---- evaluating the model inside Coq
     def coq_eval(self, name, text, timeout=600):
@@ -355,6 +404,16 @@ class Ctx:
             self.prop, self.tier, cov["evaluations"], len(self.nontrivial), ndis, nobl,
             len(self.violations), len(self.known_printed), wall), flush=True)
         return 1 if self.violations else 0
+
+
+def gen_equiv_errors(out):
+    """the part of make's output that concerns the equivalence files"""
+    keep = []
+    lines = out.splitlines()
+    for i, l in enumerate(lines):
+        if "GenEquiv" in l and ("Error" in l or "File" in l):
+            keep.extend(lines[i:i + 12])
+    return "\n".join(keep)[-3000:]
 
 
 def strip_coq_comments(txt):
